@@ -490,6 +490,9 @@ class ColorVisuals(Visuals):
               (n,) bool
         key: hashable object, in self._data
         """
+        # default colors that were edited in place only become
+        # user data once they are verified: do that before masking
+        self._verify_hash()
         mask = np.asanyarray(mask)
         if key in self._data:
             self._data[key] = self._data[key][mask]
